@@ -118,6 +118,12 @@ def _generate_model_code(
         source.append(
             assignment_template.format(k=f"d{variable}dt", v=sympy_inline_fn(expr))
         )
+    if len(diff_eqs) > 0:
+        # Variables without reactions don't change, but still have to be returned
+        for variable in variables:
+            if variable not in diff_eqs:
+                diff_eqs[variable] = {}
+                source.append(assignment_template.format(k=f"d{variable}dt", v="0.0"))
 
     # Surrogates
     if len(model._surrogates) > 0:  # noqa: SLF001
